@@ -510,7 +510,9 @@ func (fs *fileStore) flush(out *os.File, fields core.Fields, filter goexpr.Expr,
 			}
 		}()
 
-		_, err = fs.iterate(fields, ms, !shouldSort, !disallowRaw, write)
+		// Raw pass-through is only usable by the unsorted writer: a sorted flush
+		// needs the decoded columns of every row (doWrite drops rows without).
+		_, err = fs.iterate(fields, ms, !shouldSort, !disallowRaw && !shouldSort, write)
 		return
 	}
 
